@@ -436,7 +436,7 @@ fn c04(tier: &str) -> PropDef {
     ];
     PropDef {
         level: "exploration",
-        rule: "replica states reached by honest replication (as C03 strict arm); before an honest proof is delivered, altered variants of it are offered to the replica: (seeded) one random single-field alteration or forgery; (full) the whole systematic set for that proof: bit flips in value / every node hash / signature, +-1 (and +2) on fork, indices, sizes, start, length, seek bytes, node drop/duplicate/swap/insert per section, section removal, substituted block (same and different length), signature by another key over the true signable, the writer's signature for another length, signature length 0/63/65, and a whole self-consistent proof of the same shape from a different writer. Excluded as the property states: the size field of the bottom node of a hash-only or seek section. Oracle: refused => storage bytes and all observations unchanged; accepted => (length, byte_length) is a state the writer signed and every held block equals the writer's; the honest proof that follows is still accepted. distinct = trace hash; non-trivial = has a mutating step and a reopen.",
+        rule: "replica states reached by honest replication (as C03 strict arm); before an honest proof is delivered, altered variants of it are offered to the replica: (seeded) one random single-field alteration or forgery; (full) the whole systematic set for that proof: bit flips in value / every node hash / signature, +-1 (and +2) on fork, indices, sizes, start, length, seek bytes, node drop/duplicate/swap/insert per section, section removal, section addition (forged block section next to a hash section, re-used hash section, forged seek section), substituted block (same and different length), signature by another key over the true signable, the writer's signature for another length, signature length 0/63/65, and a whole self-consistent proof of the same shape from a different writer. Excluded as the property states: the size field of the bottom node of a hash-only or seek section. Oracle: refused => storage bytes and all observations unchanged; accepted => (length, byte_length) is a state the writer signed and every held block equals the writer's; the honest proof that follows is still accepted. distinct = trace hash; non-trivial = has a mutating step and a reopen.",
         assumptions: vec!["Ed25519/BLAKE2b primitives are trusted", "numeric fields stay below 2^40"],
         families,
     }
@@ -732,6 +732,24 @@ fn c13(tier: &str) -> PropDef {
                 let replicas = r.range(1, 2) as u8;
                 let n = r.range(4, 30) as usize;
                 let steps = gen::tamper_history(&mut r, &mut g, n, replicas, false);
+                let mut cfg = Cfg::basic(seed ^ idx);
+                cfg.replicas = replicas;
+                cfg.subscribers = r.range(1, 3) as u8;
+                cfg.scan = ScanMode::None;
+                world_case(cfg, steps, Fault::None)
+            }),
+        },
+        Family {
+            name: "faulty-network",
+            count: if quick { 3000 } else { 60_000 },
+            make: Box::new(|seed, idx| {
+                // duplicated / stale / reordered deliveries: accepted redundant upgrades and
+                // refused stale proofs must announce exactly what the proof carried / nothing
+                let mut r = Rng::stream(seed, "C13", idx, "network");
+                let mut g = G::new(idx);
+                let replicas = r.range(1, 2) as u8;
+                let n_req = r.range(5, 40) as u32;
+                let steps = crate::net::gen_faulty(&mut r, &mut g, replicas, n_req);
                 let mut cfg = Cfg::basic(seed ^ idx);
                 cfg.replicas = replicas;
                 cfg.subscribers = r.range(1, 3) as u8;
